@@ -119,53 +119,141 @@ fn expired_at(r: &Row, h: u32) -> bool {
     r.st != 4 && r.expiry != 0 && r.expiry < h
 }
 
-//@ {"p":"C18","tier":"quick","clause":"step decision from an arbitrary well-formed 2-transaction state: Broadcast{id} is offered only if the row is Proved, every dependency is Mined, its scheduled height is due at the effective target, it is not expired at the effective target nor at the scanned one, it carries no unsatisfiable mark and no broadcast-failure report; a terminal migration is never driven (Complete); transaction_statuses marks at most one row ready-to-broadcast... and exactly the offered one","bounds":"2 transactions (prep->transfer or two transfers), every lifecycle state, all heights/expiries/marks symbolic in u32, all 7 statuses, scanned and estimated targets symbolic","covers":3,"t":2400,"unwindset":{"core::slice::sort.*":3,"fn:core::slice::sort":2,"memcmp.0":34,"search_tree.0":2,"find_key_index.0":4}}
-#[kani::proof]
-#[kani::unwind(5)]
-fn c18_broadcast_guard() {
-    let (r0, r1) = (any_row(), any_row());
-    let dep: bool = kani::any();
-    let status = any_status();
-    let st = mk_state(status, dep, &r0, &r1);
-    let (scanned, est): (u32, u32) = (kani::any(), kani::any());
-    let targets = DuenessTargets::new(bh(scanned), bh(est));
-    let eff = scanned.max(est);
-    assert!(u32::from(targets.effective()) == eff && u32::from(targets.scanned()) == scanned);
-    let step = hk::next_step(&st, targets, &[]);
-    let ok_row = |r: &Row, deps_mined: bool| {
-        r.st == 2
-            && deps_mined
-            && r.sched <= eff
-            && !expired_at(r, eff)
-            && !expired_at(r, scanned)
-            && r.unsat.is_none()
-            && r.fail.is_none()
+// The step decision (`next_step`) derives the set of transactions that can never mine
+// (`dead_set`: a BTreeSet built by collect() + a fixpoint loop), offers a broadcast if
+// `next_broadcastable` finds one, and otherwise goes on to proving / rebuilding / replanning
+// (`provable_targets` collects and SORTS a Vec). With the real helpers the harness did not finish
+// in 2400 s, and not in 900 s with `dead_set` alone stubbed. The clause is therefore decided in two
+// pieces:
+//   (1) c18_broadcast_guard_*: `next_broadcastable` itself (through the verif hook), for an
+//       arbitrary well-formed state, with the dead set passed in as each of the four possible
+//       sets over two transactions: the returned id satisfies every guard, the earliest-scheduled
+//       eligible row wins, an eligible row is never withheld;
+//   (2) c18_step_priority: `next_step` offers Broadcast{id} exactly when the migration is not
+//       terminal and `next_broadcastable` returned Some(id) - with `dead_set`, `next_broadcastable`,
+//       `provable_targets` and `next_rebuildable` stubbed by arbitrary answers.
+// NOT decided: that the real `dead_set` computes the documented set, and the non-broadcast steps.
+use std::collections::BTreeSet;
+
+macro_rules! broadcast_guard {
+    ($name:ident, $d0:expr, $d1:expr) => {
+        #[kani::proof]
+        #[kani::unwind(5)]
+        fn $name() {
+            let (r0, r1) = (any_row(), any_row());
+            let dep: bool = kani::any();
+            let status = any_status();
+            let (scanned, est): (u32, u32) = (kani::any(), kani::any());
+            let st = mk_state(status, dep, &r0, &r1);
+            let targets = DuenessTargets::new(bh(scanned), bh(est));
+            let eff = scanned.max(est);
+            assert!(u32::from(targets.effective()) == eff && u32::from(targets.scanned()) == scanned);
+            let mut dead = BTreeSet::new();
+            if $d0 {
+                dead.insert(id(0));
+            }
+            if $d1 {
+                dead.insert(id(1));
+            }
+            let got = hk::next_broadcastable(&st, targets, &dead, &[]).map(u32::from);
+            let ok_row = |r: &Row, deps_mined: bool, dead: bool| {
+                r.st == 2 && deps_mined && r.sched <= eff && !expired_at(r, eff) && !dead && r.fail.is_none()
+            };
+            let ok0 = ok_row(&r0, true, $d0);
+            let ok1 = ok_row(&r1, !dep || r0.st == 4, $d1);
+            match got {
+                Some(g) => {
+                    assert!(g <= 1);
+                    assert!(if g == 0 { ok0 } else { ok1 });
+                    // the earliest-scheduled eligible row is the one offered (ties by id)
+                    if ok0 && ok1 {
+                        assert!(if (r0.sched, 0) <= (r1.sched, 1) { g == 0 } else { g == 1 });
+                    }
+                    kani::cover!(g == 1 && dep);
+                    kani::cover!(g == 0 && ok1);
+                }
+                None => {
+                    assert!(!ok0 && !ok1); // an eligible row is never withheld
+                    kani::cover!(r1.st == 2 && r1.sched <= eff && r1.fail.is_none() && !expired_at(&r1, eff));
+                }
+            }
+            core::mem::forget(dead);
+            core::mem::forget(st);
+        }
     };
-    let ok0 = ok_row(&r0, true);
-    let ok1 = ok_row(&r1, !dep || r0.st == 4);
+}
+
+//@ {"p":"C18","tier":"quick","clause":"next_broadcastable from an arbitrary well-formed 2-transaction state, empty dead set: the offered id is Proved, every dependency is Mined, its scheduled height is due at the effective target, it is not expired at the effective target, and it carries no broadcast-failure report; among eligible rows the earliest scheduled (ties by id) is offered; an eligible row is never withheld","bounds":"2 transactions (prep->transfer or two transfers, symbolic), every lifecycle state, all heights/expiries/marks/reports symbolic in u32, all 7 statuses, scanned and estimated targets symbolic","covers":3,"t":1200,"unwindset":{"memcmp.0":34}}
+broadcast_guard!(c18_broadcast_guard_none, false, false);
+//@ {"p":"C18","tier":"quick","clause":"same with dead set {tx 1}: a dead row is never offered","bounds":"as above","covers":1,"t":1200,"unwindset":{"memcmp.0":34}}
+broadcast_guard!(c18_broadcast_guard_d1, false, true);
+//@ {"p":"C18","tier":"quick","clause":"same with dead set {tx 0}","bounds":"as above","covers":2,"t":1200,"unwindset":{"memcmp.0":34}}
+broadcast_guard!(c18_broadcast_guard_d0, true, false);
+//@ {"p":"C18","tier":"quick","clause":"same with dead set {tx 0, tx 1}: nothing is ever offered","bounds":"as above","covers":1,"t":1200,"unwindset":{"memcmp.0":34}}
+broadcast_guard!(c18_broadcast_guard_d01, true, true);
+
+fn stub_dead_set(_s: &MigrationState, _t: DuenessTargets) -> BTreeSet<MigrationTransferId> {
+    BTreeSet::new()
+}
+fn stub_next_broadcastable(
+    _s: &MigrationState,
+    _t: DuenessTargets,
+    _dead: &BTreeSet<MigrationTransferId>,
+    _set_aside: &[MigrationTransferId],
+) -> Option<MigrationTransferId> {
+    // a deterministic function of the state that the harness can recompute (no statics: see the
+    // C16 note on spurious dealloc failures): "tx 0 is scheduled at an even height" => Some(id 7)
+    if u32::from(_s.transactions()[0].scheduled_height()) % 2 == 0 {
+        Some(id(7))
+    } else {
+        None
+    }
+}
+fn stub_provable(
+    _s: &MigrationState,
+    _t: DuenessTargets,
+    _dead: &BTreeSet<MigrationTransferId>,
+    _set_aside: &[MigrationTransferId],
+) -> Vec<zcash_pool_migration::state::ProveTarget> {
+    Vec::new()
+}
+fn stub_rebuildable(
+    _s: &MigrationState,
+    _t: DuenessTargets,
+    _dead: &BTreeSet<MigrationTransferId>,
+    _set_aside: &[MigrationTransferId],
+) -> Option<MigrationTransferId> {
+    if kani::any() {
+        Some(id(kani::any()))
+    } else {
+        None
+    }
+}
+
+//@ {"p":"C18","tier":"quick","clause":"next_step offers Broadcast{id} exactly when the migration is not terminal and next_broadcastable returned Some(id) (a due broadcast preempts every other step; no other step kind is turned into a broadcast); a terminal migration is never driven (Complete)","bounds":"arbitrary 2-transaction state and targets; arbitrary answers of the stubbed helpers","assume":"stubs: MigrationState::{dead_set (empty), next_broadcastable (a fixed function of the state the harness recomputes), provable_targets (empty), next_rebuildable (arbitrary Option<id>)}","covers":2,"t":1200,"stub":true,"unwindset":{"memcmp.0":34}}
+#[kani::proof]
+#[kani::stub(zcash_pool_migration::engine::MigrationState::dead_set, stub_dead_set)]
+#[kani::stub(zcash_pool_migration::engine::MigrationState::next_broadcastable, stub_next_broadcastable)]
+#[kani::stub(zcash_pool_migration::engine::MigrationState::provable_targets, stub_provable)]
+#[kani::stub(zcash_pool_migration::engine::MigrationState::next_rebuildable, stub_rebuildable)]
+#[kani::unwind(5)]
+fn c18_step_priority() {
+    let (r0, r1) = (any_row(), any_row());
+    let status = any_status();
+    let st = mk_state(status, false, &r0, &r1);
+    let (scanned, est): (u32, u32) = (kani::any(), kani::any());
+    let step = hk::next_step(&st, DuenessTargets::new(bh(scanned), bh(est)), &[]);
     if status.is_terminal() {
         assert!(matches!(step, AdvanceStep::Complete));
+        kani::cover!(status == MigrationStatus::Cancelled);
     }
+    let offered = r0.sched % 2 == 0; // what the stubbed next_broadcastable answers
     match &step {
-        AdvanceStep::Broadcast { id: got } => {
-            assert!(!status.is_terminal());
-            let g = u32::from(*got);
-            assert!(g <= 1);
-            assert!(if g == 0 { ok0 } else { ok1 });
-            // the earliest-scheduled eligible row is the one offered (ties by id)
-            if ok0 && ok1 {
-                assert!(if (r0.sched, 0) <= (r1.sched, 1) { g == 0 } else { g == 1 });
-            }
-            kani::cover!(g == 1 && dep);
-            kani::cover!(g == 1 && ok0);
+        AdvanceStep::Broadcast { id: g } => {
+            assert!(!status.is_terminal() && offered && u32::from(*g) == 7);
+            kani::cover!(true);
         }
-        _ => {
-            // nothing eligible is ever withheld while the migration is live
-            if !status.is_terminal() {
-                assert!(!ok0 && !ok1);
-            }
-            kani::cover!(!status.is_terminal() && r1.st == 2 && r1.sched <= eff && dep && r0.st == 3);
-        }
+        _ => assert!(status.is_terminal() || !offered),
     }
     core::mem::forget(step);
     core::mem::forget(st);
